@@ -185,10 +185,14 @@ def loaded_record(x):
     return rat_record(x, 64)
 
 
-def summ_record(vs):
+def summ_record(vs, den_avg=48, den_var=48 * 48 * 6):
+    """Cells are multiples of 1/8 and there are at most 6 subjects and 3 groups, so a per-group average has a
+    denominator dividing 8n <= 48 and a variance one dividing (8n)^2 n; an across-groups average (of <= 3
+    per-group averages) has a denominator dividing 480*3 and its variance one dividing (1440)^2 * 3."""
     if vs is None:
         return {"has": False, "avg": TOK("skip"), "var": TOK("skip"), "min": TOK("skip"), "max": TOK("skip")}
-    return {"has": True, "avg": rat_record(vs.avg, 10**5), "var": var_record(vs.std, 10**6), "min": rat_record(vs.min, 64), "max": rat_record(vs.max, 64)}
+    return {"has": True, "avg": rat_record(vs.avg, den_avg), "var": var_record(vs.std, den_var), "min": rat_record(vs.min, den_avg),
+            "max": rat_record(vs.max, den_avg)}
 
 
 def rec_c20(table, ng, nm, subjects, workdir: Path, perm, meta=None) -> dict:
@@ -236,7 +240,7 @@ def rec_c20(table, ng, nm, subjects, workdir: Path, perm, meta=None) -> dict:
             rec["summ"] = summaries(st)
             try:
                 ac = st.get_summary_across_groups()
-                rec["across"] = [summ_record(ac[m]) for m in metrics]
+                rec["across"] = [summ_record(ac[m], 1440, 1440 * 1440 * 3) for m in metrics]
             except Exception:  # noqa: BLE001
                 rec["across"] = [summ_record(None) for m in metrics]
             # every accessor of the statistics object is a pure observer: use them all, then ask again
